@@ -10,6 +10,7 @@ import H2.Proofs.PairCredit
 import H2.Proofs.StreamLemmas
 import H2.Proofs.SendHeaders
 import H2.Proofs.OutWin
+import H2.Proofs.StreamWin
 import H2.Props.C29
 
 namespace H2.C03
@@ -302,6 +303,32 @@ theorem C03_conn_window_every_history (cfg : Config) (c : Conn) (h : C29.Reachab
     have hinv := C29.C29_reachable_invariant cfg c hr
     have hi := C17.C17_feed c [] dec hinv.1 hd
     exact C03_recv_keeps_conn_window (C17.feed c [] dec) d ih hi.2
+
+/-! ### a stream's window never exceeds 2^31-1 (RFC 7540 section 6.9.1), method by method -/
+
+/-- `H2Stream.send_data` (pad length not negative, which `H2Connection.send_data` checks first) keeps the bound -/
+theorem C03_stream_send_data_keeps_bound (d : Bytes) (es : Bool) (pad : Option Int) (hp : ∀ p, pad = some p → 0 ≤ p) :
+    KeepsLe (Stream.sendData d es pad) := kle_sendData d es pad hp
+
+/-- `H2Stream.receive_window_update` keeps it: the sum goes through the regenerated guard, an overflow resets the stream
+    and leaves the window alone -/
+theorem C03_stream_window_update_keeps_bound (n : Int) : KeepsLe (Stream.receiveWindowUpdate n) := kle_receiveWindowUpdate n
+
+/-- a change of the peer's INITIAL_WINDOW_SIZE keeps it for every stream of the table, also when the loop stops at an
+    overflow -/
+theorem C03_settings_delta_keeps_bound (o n : Int) (c : Conn) (h : ∀ e ∈ c.streams, SWk e.2) :
+    ∀ e ∈ (flowControlChangeFromSettings o n c).2.streams, SWk e.2 := fcc_bound o n c h
+
+/-- no other stream method writes the window at all -/
+theorem C03_other_stream_methods_leave_window :
+    (∀ cfg hs es, KeepsOW (Stream.receiveHeaders cfg hs es)) ∧ (∀ d es fcl, KeepsOW (Stream.receiveData d es fcl)) ∧
+    (∀ cfg p hs, KeepsOW (Stream.receivePushPromiseInBand cfg p hs)) ∧ (∀ hs, KeepsOW (Stream.remotelyPushed hs)) ∧
+    (∀ code, KeepsOW (Stream.streamReset code)) ∧ (∀ o f, KeepsOW (Stream.receiveAltSvc o f)) ∧
+    (∀ d, KeepsOW (Stream.inboundFlowControlChange d)) ∧ KeepsOW Stream.endStream ∧ (∀ f, KeepsOW (Stream.advertiseAltSvc f)) ∧
+    (∀ n, KeepsOW (Stream.increaseFlowControlWindow n)) ∧ (∀ n, KeepsOW (Stream.acknowledgeReceivedData n)) ∧
+    KeepsOW Stream.locallyPushed ∧ (∀ cl, KeepsOW (Stream.upgrade cl)) ∧ (∀ code, KeepsOW (Stream.resetStream code)) :=
+  ⟨kow_receiveHeaders, kow_receiveData, kow_pushInBand, kow_remotelyPushed, kow_streamReset, kow_receiveAltSvc, kow_inboundFCC,
+   kow_endStream, kow_altSvc, kow_incWindow, kow_ackData, kow_locallyPushed, kow_upgrade, kow_resetStream⟩
 
 /-- non-vacuity -/
 example : fcLen [1, 2, 3] (some 5) = 9 ∧ fcLen [1, 2, 3] none = 3 := by decide
